@@ -25,7 +25,11 @@ VARIABLES l,          \* next line
           bad
 vars == <<l, outst, called, returned, rel, obsEnd, obsStart, errClosed, ansFly, mustResp, bad>>
 
-Allowed == {"resp", "frameerr", "timeout", "ctx", "closed", "nostreams", "builderr", "writeerr"}
+\* "verr": the request's own answer arrived with another protocol version in its header and was refused (the harness
+\* reports it only for requests the node answered that way, anything else with that error is "garbled"); in Conn.tla this
+\* is the outcome "resp" (the frame was handed to its own caller, who releases the stream) - NoLeak / ReleaseOnce / observer
+\* verdicts apply to it like to any other answered request
+Allowed == {"resp", "verr", "frameerr", "timeout", "ctx", "closed", "nostreams", "builderr", "writeerr"}
 OK == "none"
 
 Init == /\ l = 1 /\ outst = {} /\ called = {} /\ returned = {} /\ rel = <<>> /\ obsEnd = {} /\ mustResp = {} /\ ansFly = {} /\ obsStart = {} /\ errClosed = FALSE /\ bad = OK
